@@ -793,9 +793,18 @@ func (rl *Shell) keywordDecrease() {
 func (rl *Shell) keywordSwitch(increase bool) {
 	cpos := strutil.AdjustNumberOperatorPos(rl.cursor.Pos(), *rl.line)
 
+	// Nothing to switch on an empty line.
+	if rl.line.Len() == 0 {
+		return
+	}
+
 	// Select in word and get the selection positions
 	bpos, epos := rl.line.SelectWord(cpos)
 	epos++
+
+	if epos > rl.line.Len() {
+		epos = rl.line.Len()
+	}
 
 	// Move the cursor backward if needed/possible
 	if bpos != 0 && ((*rl.line)[bpos-1] == '+' || (*rl.line)[bpos-1] == '-') {
@@ -819,7 +828,7 @@ func (rl *Shell) keywordSwitch(increase bool) {
 		epos = bpos + oepos
 		bpos += obpos
 
-		if cpos < bpos || cpos >= epos {
+		if cpos < bpos || cpos >= epos || epos > rl.line.Len() {
 			continue
 		}
 
